@@ -44,6 +44,7 @@ for d in sorted(glob.glob(os.path.join(root, "C??_?"))):
     finally:
         sh("git -C /repo checkout -- .")
         sh("rm -rf /verif/replays/*")
+        sh("git -C /verif checkout -- evidence")  # evidence written on a changed tree is never kept
     json.dump(out, open(os.path.join(d, "detection.json"), "w"), indent=1)
     print(mid, "detected by", out["detected_by"], [(r["check"], r["seed"], r["violations"]) for r in out["runs"]], flush=True)
 assert sh("git -C /repo status --porcelain --untracked-files=no").stdout.strip() == ""
